@@ -1085,9 +1085,10 @@ def _low_rank_root(
   d = matrix_size
   # If padding_start < d, then we should have (d - padding_start)
   # zeros at the front of the array.
+  real_dim = padding_start if padding_start is not None else d
   if compression_rank < 0:
-    inv_e = jnp.roll(inv_e, -(d - padding_start))
-    u = jnp.roll(u, -(d - padding_start), axis=1)
+    inv_e = jnp.roll(inv_e, -(d - real_dim))
+    u = jnp.roll(u, -(d - real_dim), axis=1)
     # Denoting the eigenvalues of regularized_input
     # e == [0, low, hi] before
     # this roll corresponds to
@@ -1103,7 +1104,6 @@ def _low_rank_root(
   u_keep = u[:, :split_ix]
   # Package the mean of the elided low eigenvalues in the last
   # column.
-  real_dim = padding_start if padding_start is not None else d
   num_real_eigs_to_avg = real_dim - abs(compression_rank)
   const = jnp.sum(to_avg_e) / jnp.where(num_real_eigs_to_avg > 0,
                                         num_real_eigs_to_avg, 1.0)
